@@ -35,6 +35,10 @@ func init() {
 		Old: "precedence < p.peekPrecedence()", New: "precedence <= p.peekPrecedence()", Expect: "R3"})
 	addMutant(Mutant{Name: "infix-prec-minus-one", Prop: "C06", File: "parser/parser.go",
 		Old: "expression.Right = p.parseExpression(precedence)", New: "expression.Right = p.parseExpression(precedence - 1)", Expect: "R3"})
+	addMutant(Mutant{Name: "pointer-field-not-followed", Prop: "C11", File: "compiler.go",
+		Old: "			if f.IsNil() {\n				return nil, nil\n			}\n\n			f = f.Elem()\n", New: "			if f.IsNil() {\n				return nil, nil\n			}\n", Expect: "R4"})
+	addMutant(Mutant{Name: "nil-pointer-field-yields-the-pointer", Prop: "C11", File: "compiler.go",
+		Old: "		if f.Kind() == reflect.Ptr {\n			if f.IsNil() {\n				return nil, nil\n			}\n\n			f = f.Elem()\n		}", New: "		if f.Kind() == reflect.Ptr && !f.IsNil() {\n			f = f.Elem()\n		}", Expect: "R4"})
 	addMutant(Mutant{Name: "map-key-converted-across-kinds", Prop: "C11", File: "compiler.go",
 		Old: "			if kv.Kind() != keyT.Kind() || !kv.Type().ConvertibleTo(keyT) {", New: "			if !kv.Type().ConvertibleTo(keyT) {", Expect: "R8"})
 	addMutant(Mutant{Name: "argument-vector-kept-in-evaluator", Prop: "C12", File: "compiler.go",
